@@ -12,7 +12,7 @@ from ref import gto
 
 LEVEL = "exploration"
 
-SHELL_KINDS = ["s", "p", "dc", "dp", "fc", "fp", "sp", "sss", "pd", "ddp", "s5", "sp3", "ps", "dsp"]
+SHELL_KINDS = ["s", "p", "dc", "dp", "fc", "fp", "sp", "sss", "pd", "ddp", "s5", "sp3", "ps", "dsp", "ss0"]
 
 
 def make_shell(name, icenter, j):
@@ -30,13 +30,16 @@ def make_shell(name, icenter, j):
         "s5": ([0, 0, 0, 0, 0], ["c"] * 5), "sp3": ([0, 1, 0], ["c", "c", "c"]),
         "ps": ([1, 0], ["c", "c"]), "dsp": ([2, 0, 1], ["c", "c", "c"]),  # angular momenta not in ascending order
     }
+    if name == "ss0":  # two s contractions whose coefficients cancel in one primitive row (the row sums to exactly zero)
+        rows = [[0.5, -0.5], [0.25, 0.75], [-0.125, 0.125]][:n]
+        return Shell(icenter, [0, 0], ["c", "c"], e, rows)
     angmoms, kinds = table[name]
     return Shell(icenter, angmoms, kinds, e, co(len(angmoms)))
 
 
 def expected_segmented(seq, keep_sp):
     """Reference: list of (source shell index, contraction index or None for 'kept whole')."""
-    ncon = {"s": 1, "p": 1, "dc": 1, "dp": 1, "fc": 1, "fp": 1, "sp": 2, "sss": 3, "pd": 2, "ddp": 3, "s5": 5, "sp3": 3, "ps": 2, "dsp": 3}
+    ncon = {"s": 1, "p": 1, "dc": 1, "dp": 1, "fc": 1, "fp": 1, "sp": 2, "sss": 3, "pd": 2, "ddp": 3, "s5": 5, "sp3": 3, "ps": 2, "dsp": 3, "ss0": 2}
     out = []
     for i, name in enumerate(seq):
         if ncon[name] == 1 or (keep_sp and name == "sp"):
@@ -80,14 +83,18 @@ def basis_worker(chunk, seed, tier):
                 if c is None:
                     structure_ok &= sh.ncon == src.ncon and (sh.angmoms == src.angmoms).all() and (sh.kinds == src.kinds).all() and (sh.coeffs == src.coeffs).all()
                 else:
-                    structure_ok &= sh.ncon == 1 and sh.angmoms[0] == src.angmoms[c] and sh.kinds[0] == src.kinds[c] and sh.coeffs.shape == (src.nexp, 1) and (sh.coeffs[:, 0] == src.coeffs[:, c]).all()
-                structure_ok &= sh.icenter == src.icenter and (sh.exponents == src.exponents).all()
+                    structure_ok &= sh.ncon == 1 and sh.angmoms[0] == src.angmoms[c] and sh.kinds[0] == src.kinds[c] and sh.coeffs.shape == (src.nexp, 1) and np.array_equal(sh.coeffs[:, 0], src.coeffs[:, c])
+                structure_ok &= sh.icenter == src.icenter and np.array_equal(sh.exponents, src.exponents)
         part.outcome("segmented-structure", "as-expected" if structure_ok else "WRONG")
         if not structure_ok:
             part.violation("segmented", "segmented:structure", case, f"segmented shells {[ (s.icenter, s.angmoms.tolist(), s.kinds.tolist()) for s in seg.shells]} do not match the source contractions in order")
         # same functions in the same order (independent evaluator), same overlap, idempotent
         v0 = gto.eval_basis(common.plain(ob), conv, coords, pts)
-        v1 = gto.eval_basis(common.plain(seg), seg.conventions, coords, pts)
+        try:
+            v1 = gto.eval_basis(common.plain(seg), seg.conventions, coords, pts)
+        except Exception as exc:  # noqa: BLE001
+            part.violation("segmented", "segmented:result-cannot-be-evaluated", case, f"the segmented basis is not a well-formed basis: {exc!r}")
+            continue
         same = v0.shape == v1.shape and np.abs(v0 - v1).max() <= 1e-14 * max(1.0, np.abs(v0).max())
         part.outcome("segmented-functions", "identical" if same else "WRONG")
         if not same:
@@ -276,7 +283,7 @@ def run(ctx):
     from mc.pool import pmap
 
     maxlen = 4 if ctx.thorough else 3
-    names = SHELL_KINDS if ctx.thorough else SHELL_KINDS[:6] + ["sp", "sss", "ddp", "s5", "ps"]
+    names = SHELL_KINDS if ctx.thorough else SHELL_KINDS[:6] + ["sp", "sss", "ddp", "s5", "ps", "ss0"]
     seqs = [s for n in range(1, maxlen + 1) for s in itertools.product(names, repeat=n)]
     jobs = [(s, k) for s in seqs for k in (False, True)]
     pmap(ctx, basis_worker, jobs, chunk=32)
